@@ -428,4 +428,8 @@ func init() {
 		Old:    "\tre.processCount = 0\n\tre.deadProcessCount = 0\n",
 		New:    "\tvar mu sync.Mutex\n\tmu.Lock()\n\tif len(processes) == 0 {\n\t\treturn re\n\t}\n\tmu.Unlock()\n\tre.processCount = 0\n\tre.deadProcessCount = 0\n",
 		Expect: "process.InitializeProcesses | Lock#"})
+	addFixture(Fixture{Name: "reference-mode-read-from-the-head", Rule: "R-INFER-THROUGH-NAMES", File: "types/modality.go",
+		Old:    "\t\t\treturn typeFromLabel.Type.inferModality(labelledTypesEnv, usedLabels)",
+		New:    "\t\t\treturn typeFromLabel.Type.Modality()",
+		Expect: "infers-the-definition"})
 }
